@@ -26,6 +26,8 @@ HEALTH = ("function hh(a){ return a * 2; } var hr = [hh(21), /b+/.test('abbb'), 
           "[3, 1, 2].sort().join(''), JSON.stringify({a: [1]}), typeof Math.floor, 'ab'.toUpperCase()]; hr.join('|')")
 HEALTH_WANT = "42|true|true|TypeError|3|7|123|{\"a\":[1]}|function|AB"
 
+UNCAUGHT_WANT = [["jserr", "Error", True], ["jserr", "ReferenceError", False], ["jserr", "TypeError", False], ["jserr", "Error", False]]
+
 STATEMENTS = [
     ("g%d = %d;", None),
     ("var v%d = 'str%d';", None),
@@ -44,6 +46,9 @@ STATEMENTS = [
     ("var c%d = (function () { var k = %d; return function () { return k; }; })()();", None),
     ("var sw%d; switch (%d %% 3) { case 0: sw%d = 'zero'; break; case 1: sw%d = 'one'; break; default: sw%d = 'two'; }", None),
     ("var fo%d = (function () { var acc = 0; for (var fi of [1, 2, %d]) { acc += fi; } return acc; })();", None),
+    ("var tf%d = (function () { var z = 0; try { z = [1, 2, 3].reduce(function (p, c) { return p + c; }, %d); } finally { z++; } return z; })();", None),
+    ("var tl%d = (function () { var t; try { for (var tk in {a: 1, b: 2}) { t = tk + %d; } } catch (e) { t = 'c'; } finally { t += '!'; } return t; })();", None),
+    ("var tn%d = (function () { try { try { return %d; } finally { [1].map(function (x) { return x; }); } } catch (e) { return -1; } })();", None),
 ]
 
 
@@ -149,7 +154,17 @@ def w_fault(case, opts):
     # later behaviour of each twin (fresh replay so the observation script did not disturb it)
     later = {}
     # count steps of the clean run
-    clean = E.run_js(script, {"log": False})
+    # invariant at the step hook: while an evaluation runs, Context._current_vm is the VM that is stepping (nested eval /
+    # new Function code switches it to the nested VM and must switch it back to the VM it interrupted)
+    cctx = E.new_context()
+    cur = {"steps": 0, "bad": None}
+
+    def curmon(vm):
+        cur["steps"] += 1
+        if cctx._current_vm is not vm and cur["bad"] is None:
+            cur["bad"] = "step %d: _current_vm is %s while %s is stepping" % (
+                E.RUN.vm_steps, "None" if cctx._current_vm is None else "another VM", "the outer VM" if vm.native_depth_offset == 0 else "a nested VM")
+    clean = E.run_js(script, {"log": False, "_vm_mons": [curmon]}, ctx=cctx)
     if clean["out"] != "ok":
         return {"skip": "script fails: %r" % (clean.get("err"),)}
     nvm, nrx = clean["vm_steps"], clean["rx_steps"]
@@ -175,6 +190,16 @@ def w_fault(case, opts):
         r = E.run_js(script, {"log": False, "_vm_mons": [vmon], "_rx_mons": [rmon]}, ctx=ctx)
         ent = {"where": where, "s": s, "kind": kind, "out": r["out"], "cls": (r.get("err") or {}).get("cls"),
                "cur_vm_left": r["cur_vm_left"]}
+        def uncaught_probe():
+            # errors of later evaluations must still reach the caller (a handler left behind by the aborted run would swallow them)
+            unc = []
+            for usrc in ("throw 42;", "undefinedVariable_zz;", "(function () { try { null.x; } finally { [1].map(function (x) { return x; }); } })();", "throw {code: 7};"):
+                u = E.run_js(usrc, {"log": False}, ctx=ctx)
+                unc.append([u["out"], (u.get("err") or {}).get("name"), "42" in ((u.get("err") or {}).get("msg") or "")])
+            return unc
+        probe_first = (s // 2) % 2 == 0      # half of the faults: the very next evaluation is the failing one
+        if probe_first:
+            ent["uncaught"] = uncaught_probe()
         o = E.run_js(obs_src, {"log": False}, ctx=ctx)
         state = o.get("py")
         ks = [k for k, t in enumerate(twins) if t == state]
@@ -185,6 +210,8 @@ def w_fault(case, opts):
         ent["health_err"] = hres.get("err")
         lres = E.run_js(LATER, {"log": False}, ctx=ctx)
         ent["later"] = lres.get("py")
+        if not probe_first:
+            ent["uncaught"] = uncaught_probe()
         if ks:
             k = ks[0]
             if k not in later:
@@ -195,7 +222,7 @@ def w_fault(case, opts):
                 later[k] = E.run_js(LATER, {"log": False}, ctx=t2).get("py")
             ent["twin_later"] = later[k]
         results.append(ent)
-    return {"n_vm": nvm, "n_rx": nrx, "faults": results, "n_stmts": len(stmts)}
+    return {"n_vm": nvm, "n_rx": nrx, "faults": results, "n_stmts": len(stmts), "current_vm_steps": cur["steps"], "current_vm_bad": cur["bad"]}
 
 
 def w_history(case, opts):
@@ -444,6 +471,7 @@ def main(ctx):
     # ---- fault enumeration
     injected = 0
     scripts_done = 0
+    curvm_steps = 0
     for fs, r in zip(fscripts, fres):
         if not r or "faults" not in r:
             if r and "skip" in r:
@@ -451,6 +479,10 @@ def main(ctx):
             ctx.violation(("fault-worker-failed",), {"case": fs, "detail": r})
             continue
         scripts_done += 1
+        curvm_steps += r.get("current_vm_steps", 0)
+        if r.get("current_vm_bad"):
+            ctx.violation(("current-vm-invariant", r["current_vm_bad"].split(":", 1)[1].strip()[:60]),
+                          {"case": fs, "problem": r["current_vm_bad"], "monitor": "invariant at the VM step hook during a fault-free run"})
         lastk = {"vm": 0, "rx": 0}
         for f in r["faults"]:
             ctx.count()
@@ -467,6 +499,8 @@ def main(ctx):
                 prob = "committed prefix shrank: k=%d after k=%d" % (f["k"], lastk["vm"])
             elif f["health"] != ["s", HEALTH_WANT]:
                 prob = "health script after the fault: %r %r" % (f["health"], f.get("health_err"))
+            elif f.get("uncaught") != UNCAUGHT_WANT:
+                prob = "uncaught errors of later evaluations do not reach the caller as they should: %r" % (f.get("uncaught"),)
             elif f.get("twin_later") != f["later"]:
                 prob = "later evaluation differs from the twin context: %r vs %r" % (f["later"], f.get("twin_later"))
             if f["k"] is not None and f["where"] == "vm":
@@ -497,6 +531,7 @@ def main(ctx):
             ctx.inconclusive_because("no built-in mutation changed context A: isolation monitor observed nothing")
     if injected == 0:
         ctx.inconclusive_because("no fault was injected")
+    ctx.cov["current_vm_invariant_steps_checked"] = curvm_steps
     ctx.cov["rule"] = ("fault enumeration: engine limit errors raised from the step hook at every VM step (and the first 60 regex "
                        "steps) of one-commit-per-statement scripts; histories of 14 operation kinds over 3 contexts with "
                        "different limits checked against a dictionary model after every step; 36 built-in mutations for "
